@@ -277,14 +277,14 @@ func main() {
 	x := &ctx{shapes: map[string]int{}}
 	lastChunk := int64(-1)
 	phases := []enum.Phase{
-		{Name: "neigh", Len: sp.NeighLen(),
+		{Name: "neigh", Len: sp.NeighDeepLen(),
 			Run: func(i int64, w *enum.Worker) {
 				x.w = w
 				if lastChunk < 0 || i < lastChunk {
 					x.shapes = map[string]int{}
 				}
 				lastChunk = i
-				c := sp.NeighCase(i)
+				c := sp.NeighDeepCase(i)
 				if len(c.Data) == 0 {
 					return // the statement speaks about non-empty inputs
 				}
@@ -326,7 +326,7 @@ func main() {
 					})
 				}
 			},
-			Describe: func(i int64) any { return sp.NeighCase(i).Describe() }},
+			Describe: func(i int64) any { return sp.NeighDeepCase(i).Describe() }},
 		{Name: "unpruned-programs", Len: int64(len(sp.TSeeds)), ChunkHint: 4,
 			Run: func(i int64, w *enum.Worker) {
 				x.w = w
@@ -357,7 +357,7 @@ func main() {
 	r.Coverage["traces_validated_against_impl"] = tr
 	r.Coverage["unpruned_programs"] = cs["unpruned-programs.programs"]
 	r.Coverage["inputs_explored_by_bfs"] = cs["neigh.bfs_inputs"]
-	r.Coverage["rule"] = "every non-empty input of the deviation<=1 neighbourhoods x {NoCopy} x {DSAD}: lazy packet after Layers() must equal the eager packet (layers, contents, payloads, rendered fields, special layers, error, truncation, String). For one representative per decode shape (step-by-step trajectory of the lazy decode) per chunk: explicit-state BFS over (lazy packet state) x (accessor alphabet), each transition = fresh lazy packet + replayed path, every answer compared with the eager packet's answer. For every unmodified seed: all accessor programs of length 3 [thorough 4] unpruned."
+	r.Coverage["rule"] = "every non-empty input of the deviation<=1 neighbourhoods (header region, and length-field deviations beyond it to the end of the seed) x {NoCopy} x {DSAD}: lazy packet after Layers() must equal the eager packet (layers, contents, payloads, rendered fields, special layers, error, truncation, String). For one representative per decode shape (step-by-step trajectory of the lazy decode) per chunk: explicit-state BFS over (lazy packet state) x (accessor alphabet), each transition = fresh lazy packet + replayed path, every answer compared with the eager packet's answer. For every unmodified seed: all accessor programs of length 3 [thorough 4] unpruned."
 	r.Coverage["explanation"] = "state = (layers decoded so far, continuation present, link/network/transport/application/failure set, truncated) read by an injected accessor; transitions = accessor calls; states/transitions are summed over inputs."
 	r.Assumptions = []string{"pruning argument: a lazy decode step reads only next/last/data, so equal state keys have equal futures on an implementation whose accessors do not cache; the unpruned enumeration guards the argument itself", "NoCopy: every packet gets its own copy of the input (input integrity is C02)", "Dump() compared only when there is no error layer (a recovered panic's stack text legitimately differs)"}
 	r.Finish()
